@@ -77,6 +77,10 @@ def readEntity (s : DState) (k : Nat) : Json :=
     ("label", jOptStr (g.getAttr k "label")),
     ("data", match dataOf s k with
       | some d => Json.mkObj [("shape", Json.arr (d.shape.map fun (n : Nat) => Json.num (JsonNumber.fromNat n)).toArray), ("vals", jRats d.vals)]
+      | none => Json.null),
+    -- `DataFrame.units` (null for anything but a frame, and for a frame without units)
+    ("units", match (frameOf s k).bind frameUnits with
+      | some us => Json.arr (us.map jOptStr).toArray
       | none => Json.null)]
 
 def readDim (s : DState) (dn : Nat) : Json :=
@@ -134,8 +138,10 @@ def step (s : DState) (j : Json) : DState × Json :=
     | some p, some i, some t, some iv => applyS s (linkDataArray s p i.toNat t iv)
     | _, _, _, _ => (s, bad "args")
   | [.str "create_df", pj, nm, .str ty, cj, uj, rj] =>
-    let units : Option (List (Option String)) := match uj with
-      | .arr a => some (a.toList.map optStr)
+    -- `null`: the frame is made without units (no `units` attribute); a list: `frame.units = list` follows
+    let units : Option (Option (List (Option String))) := match uj with
+      | .arr a => some (some (a.toList.map optStr))
+      | .null => some none
       | _ => none
     let rows : Option (List (List Rat)) := match rj with
       | .arr a => a.toList.mapM parseRats
@@ -143,6 +149,10 @@ def step (s : DState) (j : Json) : DState × Json :=
     match Driver.Store.parsePath pj, Driver.Store.parseName g nm, parseStrs cj, units, rows with
     | some p, some name, some cols, some us, some rs => applyS s (createFrame s p name ty cols us rs)
     | _, _, _, _, _ => (s, bad "args")
+  | [.str "df_set_units", pj, .arr a] =>
+    match Driver.Store.parsePath pj with
+    | some p => applyS s (setUnits s p (a.toList.map optStr))
+    | none => (s, bad "args")
   | [.str "df_write_col", pj, cj, vj] =>
     match Driver.Store.parsePath pj, jInt? cj, parseRats vj with
     | some p, some c, some vs => applyS s (writeColumn s p c.toNat vs)
